@@ -356,6 +356,17 @@ fn run(ctx: &mut Ctx) {
             }
         }
     }
+    // formulas with five and six variables under four orderings, full observation set
+    for f in crate::props::c10::BIG {
+        let Ok(a) = refl::parse(f) else { continue };
+        for o in crate::props::c10::big_orderings(&a.names()) {
+            idx += 1;
+            if ctx.mine(idx) {
+                check_cli(ctx, &a, f, &o, true);
+                ctx.count("cli_cases", 1);
+            }
+        }
+    }
     crate::cli::cleanup_scratch();
 }
 
